@@ -136,19 +136,21 @@ type verifInStream struct {
 	cur     *verifBatch
 	err     error
 	opened  bool
+	overread bool // read through a read-ahead wrapper created for this stream only
 }
 
 var (
 	verifInQueue   []*verifInStream
 	verifInNext    int
 	verifInDesync  int // NewReader calls made while the previous stream was not drained to EOS
+	verifInLost    int // streams swallowed by a read-ahead wrapper that was dropped
 	verifReaders   []*ipc.Reader
 	verifReaderSt  []*verifInStream
 	verifLastRdSrc io.Reader
 )
 
 func verifResetIPC() {
-	verifInQueue, verifInNext, verifInDesync = nil, 0, 0
+	verifInQueue, verifInNext, verifInDesync, verifInLost = nil, 0, 0, 0
 	verifReaders, verifReaderSt = nil, nil
 	verifOutStreams, verifWriters, verifWriterSt = nil, nil, nil
 	verifOptSchema = nil
@@ -207,6 +209,16 @@ func verifIpcNewReader(r io.Reader, opts ...ipc.Option) (*ipc.Reader, error) {
 	st := verifInQueue[verifInNext]
 	verifInNext++
 	st.opened = true
+	// A reader that is neither the connection itself nor an in-memory blob is a
+	// wrapper created around the connection for this one stream (bufio and the
+	// like). Such a wrapper reads ahead: when it is dropped at the end of its
+	// stream, whatever it buffered beyond the frame — the next stream on the
+	// connection — is lost with it.
+	if _, isConn := r.(*verifConn); !isConn {
+		if _, isMem := r.(*bytes.Reader); !isMem {
+			st.overread = true
+		}
+	}
 	if st.bad {
 		st.atEOS = true // garbage consumes the connection's framing; recorded by the harness separately
 		return nil, errors.New("arrow/ipc: could not read message schema")
@@ -228,6 +240,12 @@ func verifReaderNext(r *ipc.Reader) bool {
 		return false
 	}
 	if st.pos >= len(st.batches) {
+		if !st.atEOS && st.overread && verifInNext < len(verifInQueue) {
+			verifInQueue[verifInNext].opened = true
+			verifInQueue[verifInNext].atEOS = true
+			verifInNext++
+			verifInLost++
+		}
 		st.atEOS = true
 		st.cur = nil
 		return false
